@@ -30,6 +30,9 @@ META = {
             "ExpiringCache purge thread (not observable through get), statistics counters (not modelled), DNS transport.",
 }
 
+# ---- additions of the translator / tie session (appended to the manifest texts)
+META["text"] += " GenTie.v: label / name limits are the DNS constants of the current headers."
+
 LABEL_POOL = [b"www", b"example", b"com", b"org", b"a", b"b", b"mail", b"_sip", b"_udp", b"x" * 63, b"ns1", b"Ex-1"]
 T_A, T_NS, T_CNAME, T_SOA, T_PTR, T_MX, T_TXT, T_AAAA, T_SRV, T_NAPTR = 1, 2, 5, 6, 12, 15, 16, 28, 33, 35
 
